@@ -57,6 +57,7 @@ impl FnSpec {
                     il::Operation::Load { dst, index } => block.load(dst.clone(), index.clone()),
                     il::Operation::Branch { target } => block.branch(target.clone()),
                     il::Operation::Intrinsic { intrinsic } => block.intrinsic(intrinsic.clone()),
+                    il::Operation::Nop { placeholder: Some(inner) } => block.placeholder((**inner).clone()),
                     il::Operation::Nop { .. } => block.nop(),
                 }
                 let last = block.instructions().len() - 1;
@@ -185,6 +186,8 @@ pub struct IlParams {
     pub raw_ashr: bool,
     /// per-mille of functions that get 1-3 instruction-index gaps (`FnSpec::gaps`)
     pub index_gaps_permille: u32,
+    /// half of the generated nops are placeholders for an assignment (`Nop { placeholder: Some(..) }`)
+    pub nop_placeholders: bool,
 }
 
 impl Default for IlParams {
@@ -210,6 +213,7 @@ impl Default for IlParams {
             raw_address_permille: 30,
             raw_ashr: false,
             index_gaps_permille: 0,
+            nop_placeholders: false,
         }
     }
 }
@@ -394,7 +398,17 @@ pub fn gen_op(t: &mut Tape, pool: &Pool, p: &IlParams, intrinsic_counter: &mut u
             };
             il::Operation::Assign { dst, src }
         }
-        1 => il::Operation::Nop { placeholder: None },
+        1 => {
+            // a nop may stand in for another operation (what dead-code removal and the x86 lifter's
+            // branch placeholders leave): it still does nothing and writes nothing
+            if p.nop_placeholders && t.chance(1, 2) {
+                let dst = t.pick(&all).clone();
+                let src = gen_expr(t, pool, p, dst.bits(), 1);
+                il::Operation::Nop { placeholder: Some(Box::new(il::Operation::Assign { dst, src })) }
+            } else {
+                il::Operation::Nop { placeholder: None }
+            }
+        }
         2 => {
             let w = *t.pick(&[8usize, 16, 32, 64, 128]);
             let w = if p.widths.contains(&w) || w <= 64 { w } else { 64 };
